@@ -18,7 +18,16 @@ N = {"quick": 3000, "thorough": 40000}
 EXHAUSTIVE = {"quick": False, "thorough": False}
 RULE = ("cases = corpus + a systematic sweep of chunking shapes (n rules on one level x max_threads 1..16, thorough: every "
         "n in 1..24; quick: n in 1,4,..,22 x selected thread counts; debug_mode alternating off / configured engine / both engines) "
-        "+ a contention family + N random cases: 17/24 plain configurations (1..24 typed-core rules with "
+        "+ a contention family + 12 action-kind cases (one parallelised level whose rules carry every ActionType there is: Set, MethodCall, "
+        "Log, Retract, Append, Custom with no function registered, the four workflow kinds) + N/6 cases of the EXTENDED grammar (a plain "
+        "case or session in which 2/5 of the leaves are replaced by Value::Expression right-hand sides - the GRL parser's form of `a > b`, "
+        "`a > U.x`, `a > b + 1`: bare field names and one-step + - * arithmetic over integers, integral floats, numeric strings, booleans, "
+        "words and missing fields, evaluated by expression::evaluate_expression which reads the FLAT key first - and by the string operators "
+        "contains / not_contains / startsWith / endsWith / matches / in against string constants, other fields and non-strings; string facts "
+        "that are substrings of one another; a field two objects deep (U.p.q), a path through a scalar (U.x.y) and flat keys spelled like "
+        "them; half of the rules with actions of the other kinds; a quarter with engines built from ParallelConfig::default() (max_threads "
+        "overridden), half with the facts built through set + create_object + set_nested, from_context, or merge + remove + snapshot + clear + "
+        "restore instead of add_value) + N random cases: 17/24 plain configurations (1..24 typed-core rules with "
         "salience ties over 1..4 levels, enabled on/off, max_threads 1..16, min_rules_per_thread 1..4, parallelism on/off, "
         "And/Or/Not condition trees to depth 3 over fields incl. a nested object and a never-present field, integer-literal and "
         "field-reference right-hand sides, a quarter of them with constants and fact values of every scalar type (Integer, integral "
@@ -51,9 +60,10 @@ TRUSTED = [
     "harness/src/bin/c19.rs, Driver/C19.lean parsing/printing glue, check.py diff",
 ]
 ASSUMPTIONS = [
-    "typed core: Single(field op scalar literal | field op string literal-or-other-field) / Compound And,Or / Not conditions over scalar-valued "
-    "(Integer, integral Number, Boolean, String) flat or one-level nested facts (incl. flat keys spelled like a nested path), operators == != > >= < <= (== / != type-sensitive as Value's "
-    "PartialEq, ordering through to_number), ActionType::Set assignments; integers and integral floats within +-2^53 (i as f64 exact), string "
+    "typed core: Single(field op scalar literal | field op string literal-or-other-field | field op Value::Expression(name | name +-* k)) / Compound And,Or / Not conditions over scalar-valued "
+    "(Integer, integral Number, Boolean, String) flat or nested facts of any depth (incl. flat keys spelled like a nested path; a condition never reads a path whose value is an object), "
+    "operators == != > >= < <= (== / != type-sensitive as Value's PartialEq, ordering through to_number) contains not_contains startsWith endsWith matches in (string arms through as_string_ref; "
+    "`in` only against non-arrays), every ActionType (Custom only with no function registered); arithmetic right-hand sides only with fact numbers within +-2^31 and k <= 2^20 (f64 exact); integers and integral floats within +-2^53 (i as f64 exact), string "
     "literals are decimal integers or words that Rust's f64 parser rejects; no Null / Array / Expression values; no custom functions registered, no accumulate/exists/forall/multifield/function-call conditions "
     "(accumulate conditions and registered custom functions can write the shared facts: outside the theorem's ReadOnly hypothesis)",
     "max_threads >= 1 (max_threads = 0 panics in usize::div_ceil when a level is parallelised: modelled as an explicit error, corpus case)",
